@@ -142,7 +142,11 @@ def run_kernel(chk, pid, kname, dts, clauses, tol=None, unit_overrides=None, tag
             # precision follows the DATA operand (C07): a double-precision result is held to the double-precision bound even when a
             # geometry operand is stored in single precision (its value is exact as given)
             bound = Fr(1, 10 ** 11) if expected_dtype(kname, dts) == F64 else Fr(1, 10 ** 5)
-            ok = r.buf.rel is not None and r.buf.rel <= bound
+            if r.buf.rel is None:
+                # the rounding-error calculus has no rule for an operation this version of the kernel uses: an engine limit -- the
+                # native unit x dtype grid (40-digit reference) decides the accuracy clause
+                raise core.Unsupported(f'rounding-error calculus does not cover the expression {kname} evaluates ({ptag})')
+            ok = r.buf.rel <= bound
             chk.decided(f'{pre}/relerr[{ptag}]', ok,
                         detail=f'accumulated relative error bound {float(r.buf.rel) if r.buf.rel is not None else None} vs {float(bound)}',
                         meta={**meta, 'relerr': True})
